@@ -18,6 +18,7 @@ S(kind) == Site(kind, "x")      \* ids are assigned by position when the case is
 RECURSIVE Items(_)
 Leaf == {S(k) : k \in SiteKinds}
         \cup (IF "assign" \in ItemKinds THEN {Assign("a", PlainItem)} \cup {Assign("a", S(k)) : k \in SiteKinds} ELSE {})
+        \cup (IF "userdecl" \in ItemKinds THEN {Assign("_slot", S("call"))} ELSE {})      \* the user's own `_slot` is the target
         \cup (IF "userdecl" \in ItemKinds THEN {UserDecl("_slot"), UserDecl("_a"), UserDecl("_createVNode"), UserDecl("_isSlot"), UserDecl("_Fragment")} ELSE {})
         \cup (IF "classfield" \in ItemKinds THEN {ClassField(S(k)) : k \in SiteKinds \cap {"call", "ident"}} ELSE {})
         \cup (IF "arrow" \in ItemKinds THEN {ArrowExpr(S(k)) : k \in SiteKinds} \cup {ArrowExpr(Assign("a", S("ident")))} ELSE {})
@@ -49,7 +50,15 @@ HasSite(it) ==
     [] it.k = "classfield" -> TRUE
     [] OTHER -> FALSE
 
-Modules == {m \in UNION {[1..n -> Items(Depth)] : n \in 1..MaxItems} : \E i \in 1..Len(m) : HasSite(m[i])}
+(* `let _slot` (for the assignment to the user's `_slot`) and `const _slot` cannot both be declared at module level *)
+RECURSIVE AssignsSlot(_)
+AssignsSlot(it) ==
+  CASE it.k = "assign" -> it.x = "_slot"
+    [] it.k \in {"fn", "block", "arrowblock", "fnparam", "arrowblockp"} -> \E i \in 1..Len(it.body) : AssignsSlot(it.body[i])
+    [] it.k \in {"arrow", "arrowp"} -> AssignsSlot(it.item)
+    [] OTHER -> FALSE
+NoClash(m) == ~\E i, j \in 1..Len(m) : AssignsSlot(m[i]) /\ m[j].k = "userdecl" /\ m[j].name = "_slot"
+Modules == {m \in UNION {[1..n -> Items(Depth)] : n \in 1..MaxItems} : NoClash(m) /\ \E i \in 1..Len(m) : HasSite(m[i])}
 
 Init == InitWith(Modules)
 Spec == Init /\ [][Next]_allvars
